@@ -21,6 +21,7 @@ EXPLANATION = (
     "decided."
     " Added later: R1 also demands that the 'closed locally' exemption covers end-of-stream only and that the read loop is left normally only when the reader is gone; R10 (C01.R1 re-used) a message is out of the queue before the attempt to write it."
     ' Rounds 7-8: R7 accepts two idioms for running subscriber callbacks (try/except Exception per awaited callback inside the loop, or asyncio.gather(..., return_exceptions=True)) and refutes callbacks wrapped in tasks that outlive a cancelled notifier; R3 also: retry delay == 2 s, no timer around the connection attempt; R11 the scheduling primitive (_schedule/_delay): one task per call running the coroutine given, delayed exactly for a non-zero delay (path conditions evaluated on the delays the package uses), tracked in _background_tasks and released by a done callback.'
+    ' Rounds 9-10: R1 also: _read starts reading unconditionally (no entry guard); R2 also: neither reset_connection nor _disconnect nor _connect cancels a task; R3 also: inside the try of _connect only OSError can be raised (effect analysis per statement) and nothing in the OSError handler can raise; R7 also refutes raising a result collected by gather(); R13 every way round a while loop of a synchronous codec function assigns a local its condition reads; R14 (C13.R1 re-used): a legal frame never becomes an exception in the read path; R15 (C01.R11 re-used).'
 )
 ASSUMPTIONS = [
     "library calls in the frozen no-raise table of sa/effects.py do not raise (logging, loop.time/create_task, set/deque ops, StreamWriter.write/close/is_closing)",
